@@ -571,7 +571,6 @@ func c19FloodRun(t *testing.T) func(c c19FloodCase, v *vlib.Verdict) {
 }
 
 func TestVerifC19Stateless(t *testing.T) {
-	c19SelfTest(t)
 	vlib.Drive(t, vlib.Spec[c19FloodCase]{ID: "C19", Quick: 400, Gen: c19FloodGen, Run: c19FloodRun(t)})
 }
 
@@ -592,14 +591,15 @@ type c19CookieCase struct {
 var c19FromAddrs = []*net.UDPAddr{vCliAddr, c19AddrSameIP, c19AddrSamePort, vEvilAddr}
 
 type c19CookieOut struct {
-	mach       string
-	serverAuth bool
-	emitted    string
-	entry      bool
-	grewField  string
-	grewFrom   int
-	grewTo     int
-	rotated    bool
+	mach         string
+	serverAuth   bool
+	emitted      string
+	entry        bool // a handshake entry for the source exists after the presentation
+	entryCreated bool // ... and did not exist before it
+	grewField    string
+	grewFrom     int
+	grewTo       int
+	rotated      bool
 }
 
 func c19Cookie(c c19CookieCase) (out c19CookieOut) {
@@ -734,6 +734,7 @@ func c19Cookie(c c19CookieCase) (out c19CookieOut) {
 	out.rotated = c19CookieKey(env.Srv) != keyAt
 	src := c19FromAddrs[c.From]
 	before := c19Footprint(env.Srv)
+	entryBefore := env.Srv.fetchHandshakeState(src)
 	watch := c19NewWatch(env.Net)
 	env.Net.Inject(src, vSrvAddr, ack)
 	c19Settle()
@@ -745,6 +746,7 @@ func c19Cookie(c c19CookieCase) (out c19CookieOut) {
 	}
 	out.emitted = c19Describe(sent)
 	out.entry = env.Srv.fetchHandshakeState(src) != nil
+	out.entryCreated = out.entry && entryBefore == nil // by this presentation
 	out.grewField, out.grewFrom, out.grewTo = c19FootprintDiff(before, c19Footprint(env.Srv))
 	return
 }
@@ -819,7 +821,7 @@ func c19CookieRun(t *testing.T) func(c c19CookieCase, v *vlib.Verdict) {
 		if c.DelayS >= 121 && !out.rotated {
 			v.Label("cookie-key-unchanged-after-more-than-120s(not-judged)")
 		}
-		accepted := out.serverAuth || out.entry || out.grewField == "handshakes" || out.grewField == "sessions"
+		accepted := out.serverAuth || out.entryCreated || out.grewField == "handshakes" || out.grewField == "sessions"
 		if len(differs) == 0 {
 			v.Label("differs:nothing(matching)")
 			switch {
@@ -841,7 +843,7 @@ func c19CookieRun(t *testing.T) func(c c19CookieCase, v *vlib.Verdict) {
 		v.NonTrivial = true
 		if accepted {
 			v.Failf("C19:cookie-accepted:"+what, "client acknowledgement accepted although it differs from the exchange the cookie was minted for in: %s (ServerAuth emitted %v, handshake entry for the source %v, table change %q %d->%d; server sent:%s)",
-				what, out.serverAuth, out.entry, out.grewField, out.grewFrom, out.grewTo, out.emitted)
+				what, out.serverAuth, out.entryCreated, out.grewField, out.grewFrom, out.grewTo, out.emitted)
 			return
 		}
 		if out.emitted != "" {
@@ -857,7 +859,7 @@ func TestVerifC19CookieSweep(t *testing.T) {
 	if vlib.ReplayEnumerated(t, "C19", run) {
 		return
 	}
-	c19SelfTest(t)
+	c19SelfTestCookie(t)
 	rec := vlib.Open(t, "C19")
 	idx := 0
 	emit := func(c c19CookieCase) bool {
@@ -908,7 +910,7 @@ func TestVerifC19CookieSweep(t *testing.T) {
 }
 
 func TestVerifC19CookieRandom(t *testing.T) {
-	c19SelfTest(t)
+	c19SelfTestCookie(t)
 	vlib.Drive(t, vlib.Spec[c19CookieCase]{ID: "C19", Quick: 1500, Run: c19CookieRun(t), Gen: func(t *rapid.T) c19CookieCase {
 		c := c19CookieCase{Real: rapid.Bool().Draw(t, "real")}
 		c.From = rapid.SampledFrom([]int{0, 0, 1, 2, 3}).Draw(t, "from")
@@ -1530,7 +1532,7 @@ func TestVerifC19HiddenSweep(t *testing.T) {
 	if vlib.ReplayEnumerated(t, "C19", run) {
 		return
 	}
-	L := c19SelfTest(t)
+	L := c19SelfTestHidden(t)
 	rec := vlib.Open(t, "C19")
 	idx := 0
 	emit := func(c c19HiddenCase) bool {
@@ -1781,7 +1783,7 @@ func c19HiddenGen(L int) func(t *rapid.T) c19HiddenCase {
 }
 
 func TestVerifC19HiddenRandom(t *testing.T) {
-	L := c19SelfTest(t)
+	L := c19SelfTestHidden(t)
 	vlib.Drive(t, vlib.Spec[c19HiddenCase]{ID: "C19", Quick: 2500, Gen: c19HiddenGen(L), Run: c19HiddenRun(t)})
 }
 
@@ -1789,38 +1791,52 @@ func TestVerifC19HiddenRandom(t *testing.T) {
 // self-test of the harness: the fully honest presentations must be accepted / answered (machinery failure otherwise)
 
 var (
-	c19SelfOnce sync.Once
-	c19SelfErr  string
-	c19SelfLen  int
+	c19SelfCookieOnce sync.Once
+	c19SelfCookieErr  string
+	c19SelfHiddenOnce sync.Once
+	c19SelfHiddenErr  string
+	c19SelfLen        int
 )
 
-func c19SelfTest(t *testing.T) int {
-	c19SelfOnce.Do(func() {
+// c19SelfTestCookie: unaltered acknowledgements (real client, harness-driven, built by the forging helper, presented 60 s
+// later) are accepted.
+func c19SelfTestCookie(t *testing.T) {
+	c19SelfCookieOnce.Do(func() {
 		for _, c := range []c19CookieCase{{}, {Forge: true}, {Real: true}, {DelayS: 60}} {
 			var out c19CookieOut
 			res := vlib.Bubble(t, 60*time.Second, func() { out = c19Cookie(c) })
 			if res.Panic != "" || res.Hung || out.mach != "" || !out.serverAuth || !out.entry {
-				c19SelfErr = fmt.Sprintf("C19:valid-cookie-rejected: honest acknowledgement %+v: panic %q hung %v machinery %q ServerAuth %v handshake entry %v", c, res.Panic, res.Hung, out.mach, out.serverAuth, out.entry)
+				c19SelfCookieErr = fmt.Sprintf("C19:valid-cookie-rejected: honest acknowledgement %+v: panic %q hung %v machinery %q ServerAuth %v handshake entry %v", c, res.Panic, res.Hung, out.mach, out.serverAuth, out.entry)
 				return
 			}
 		}
+	})
+	if c19SelfCookieErr != "" {
+		t.Fatalf("VERIF-MACHINERY %s", c19SelfCookieErr)
+	}
+}
+
+// c19SelfTestHidden: an honest hidden handshake is answered exactly once (one and two certificates); returns the
+// length of an honest request.
+func c19SelfTestHidden(t *testing.T) int {
+	c19SelfHiddenOnce.Do(func() {
 		for certs := 1; certs <= 2; certs++ {
 			var v vlib.Verdict
 			var mach string
 			c19LastReqLen.Store(0)
 			res := vlib.Bubble(t, 60*time.Second, func() { mach = c19Hidden(c19HiddenCase{Certs: certs, Class: "honest"}, &v, nil) })
 			if res.Panic != "" || res.Hung || mach != "" || !v.OK() || c19LastReqLen.Load() < c19MinHiddenLen {
-				c19SelfErr = fmt.Sprintf("honest hidden handshake against a %d-certificate server is not answered exactly once: panic %q hung %v machinery %q violations %v labels %v", certs, res.Panic, res.Hung, mach, v.Violations, v.Labels)
+				c19SelfHiddenErr = fmt.Sprintf("honest hidden handshake against a %d-certificate server is not answered exactly once: panic %q hung %v machinery %q violations %v labels %v", certs, res.Panic, res.Hung, mach, v.Violations, v.Labels)
 				return
 			}
 			c19SelfLen = int(c19LastReqLen.Load())
 		}
-		if msgs := c19MakeRequest(t, 7000, c19HiddenClientConfig(0, false)); len(msgs) != c19SelfLen {
-			c19SelfErr = fmt.Sprintf("future-stamped request has %d bytes, honest request %d", len(msgs), c19SelfLen)
+		if req := c19MakeRequest(t, 7000, c19HiddenClientConfig(0, false)); len(req) != c19SelfLen {
+			c19SelfHiddenErr = fmt.Sprintf("future-stamped request has %d bytes, honest request %d", len(req), c19SelfLen)
 		}
 	})
-	if c19SelfErr != "" {
-		t.Fatalf("VERIF-MACHINERY %s", c19SelfErr)
+	if c19SelfHiddenErr != "" {
+		t.Fatalf("VERIF-MACHINERY %s", c19SelfHiddenErr)
 	}
 	return c19SelfLen
 }
